@@ -35,6 +35,7 @@ type evalCtx struct {
 	varsSt    *State // state whose source-variable bindings are used (stays the current one inside old())
 	absIdx    *absIndex
 	varsAfter bool // parameters (entry values) shadow current source variables (ensures clauses)
+	undefLocals bool // a local variable without a value on this path evaluates to an arbitrary value
 }
 
 type absIndex struct {
@@ -450,7 +451,7 @@ func (cx *evalCtx) ident(name string) (TV, error) {
 			return cx.constTV(c)
 		}
 	}
-	if cx.varsAfter && cx.fr != nil && cx.fr.fn != nil {
+	if (cx.varsAfter || cx.undefLocals) && cx.fr != nil && cx.fr.fn != nil {
 		// a local variable of the function that is not (yet) defined on this return path: its value is arbitrary here, so
 		// the clause has to hold whatever it is (clauses normally guard such paths out by the result value)
 		if t := cx.run.eng.localVarType(cx.fr.fn, name); t != nil {
@@ -1559,6 +1560,8 @@ func (fr *Frame) newCtx(st *State, rec *loopRec, useVars bool) *evalCtx {
 
 func (fr *Frame) evalClause(st *State, c *Clause, rec *loopRec) (string, error) {
 	cx := fr.newCtx(st, rec, true)
+	// step clauses are checked on every back edge; a local that is not yet defined on one of them is arbitrary there
+	cx.undefLocals = c.Kind == "step"
 	return cx.boolExpr(c.Expr)
 }
 
